@@ -232,9 +232,11 @@ def _check_keyword_only_parameters(
   if not base_signature.kwargs_name:
     # Keyword-only parameters of the overriding method that don't match any
     # keyword-only parameter of the overridden method must have a default value.
-    for method_param_name in method_kwonly_params.difference(
-        base_kwonly_params
-    ).difference(method_defaults):
+    for method_param_name in sorted(
+        method_kwonly_params.difference(base_kwonly_params).difference(
+            method_defaults
+        )
+    ):
       return SignatureError(
           SignatureErrorType.DEFAULT_PARAMETER_MISMATCH,
           f"Parameter '{method_param_name}' must have a default value.",
@@ -242,7 +244,9 @@ def _check_keyword_only_parameters(
 
   # A keyword-only parameter of the overridden method cannot have the same name
   # as a positional-only parameter of the overriding method.
-  for base_param_name in base_kwonly_params.difference(method_kwonly_params):
+  for base_param_name in sorted(
+      base_kwonly_params.difference(method_kwonly_params)
+  ):
     try:
       method_param_index = method_signature.param_names.index(base_param_name)
     except ValueError:
